@@ -257,7 +257,7 @@ class Runner:
                     parts = line.split(" ", 3)
                     done[int(parts[1])] = (parts[2], parts[3] if len(parts) > 3 else "")
             for k, (st, detail) in done.items():
-                results[start + k] = ("ok" if st == "completed" else "exception", detail)
+                results[start + k] = ("ok", detail) if st == "completed" else ("died", detail) if st == "broken" else ("exception", detail)
             if p.returncode == 0 and not timed_out and len(done) == len(items) - start:
                 break
             # the child died (or hung) on item last_begin
@@ -395,7 +395,8 @@ def run(tier, seed, engines, job):
                         detail = rr[0][1]
                 if confirmed == tries:
                     keep = keep_case(xp, os.path.join(build.BUILD, "violations", "C17", os.path.basename(xp)[:-4]))
-                    violations.append((keep, "%s, %s: start-up %s: %s" % (tname, desc, "hangs" if st == "hang" else "crashes", detail)))
+                    what = "hangs" if st == "hang" else ("accepts a broken input" if detail.startswith("start-up completed") else "crashes")
+                    violations.append((keep, "%s, %s: start-up %s: %s" % (tname, desc, what, detail)))
                 else:
                     notes.append("unconfirmed %s on %s %s" % (st, tname, desc))
     shutil.rmtree(scratch, ignore_errors=True)
